@@ -22,7 +22,7 @@
 #define PAYLOAD 0
 #endif
 #ifndef FULL
-#define FULL 1      // 0: reduced scenario for the large-N sweep (no byte comparison of the saver, no canonicity pair)
+#define FULL 1      // 2: large-N sweep (no byte comparison of the saver); 0: additionally no canonicity pair
 #endif
 struct Pay { unsigned v; };
 namespace cfg {
@@ -98,13 +98,13 @@ extern "C" int harness(void) {
   struct { unsigned char g1[4]; SBuf b; unsigned char g2[4]; } box;
   nondet_fill(&box, sizeof box);
   const unsigned char c0 = box.g1[3], c1 = box.g2[0];
-#if FULL
+#if FULL == 1
   unsigned char before[sizeof(Inst)]; vmem_copy(before, &saver, sizeof(Inst));
 #endif
   observing = true; n_guard = n_enter = n_exit = n_reenter = 0;
   { const Inst& cs = saver; cs.save(box.b); }
   vassert(n_guard + n_enter + n_exit + n_reenter == 0, 1201);                  // save() runs no callback
-#if FULL
+#if FULL == 1
   vassert(vmem_equal(before, &saver, sizeof(Inst)), 1202);                                                       // save() does not modify the machine
 #endif
   vassert(activity(saver) == sa, 1203);
